@@ -107,16 +107,21 @@ def run_history(desc, base, ops, ctx, bm, construct="at_base"):
         return r
     arm.IK = IK_rec
 
-    baked = [False]     # a tool frame defined while a joint value sat in the cut-off band carries the dropped rotation from then on
+    # a tool frame defined while a joint value sat in the cut-off band, or at joint values of 1e9 rad left by a diverged free solve,
+    # carries that evaluation error in the home pose from then on (until restoreOriginalEE)
+    baked = [0.0]
+
+    def extra_now():
+        big = float(np.max(np.abs(model.theta))) if model.n and model.theta_known else 0.0
+        # a diverged free IK can leave joint values of 1e10 rad: sin/cos of S*theta then carry eps*|theta| of error
+        return (2e-6 * model.n if model.in_band() else 0.0) + 1e-14 * big
 
     def in_band():
-        return model.in_band() or baked[0]
+        return model.in_band() or baked[0] >= 1e-6
 
     def ptol(T):
         sc = max(1.0, float(np.linalg.norm(T[:3, 3])))
-        big = float(np.max(np.abs(model.theta))) if model.n else 0.0
-        # a diverged free IK can leave joint values of 1e10 rad: sin/cos of S*theta then carry eps*|theta| of error
-        return (2e-6 * model.n if in_band() else 1e-7) * sc + 1e-14 * big * sc
+        return (1e-7 + max(extra_now(), baked[0])) * sc
 
     def cmp_pose(clause, key, got_tm, want, step):
         ctx.clause(clause)
@@ -167,7 +172,7 @@ def run_history(desc, base, ops, ctx, bm, construct="at_base"):
                 ctx.violation(clause, clause + "/raises/%s/after=%s" % (type(e).__name__, after), {"exc": repr(e)[:300], "step": step}, hist)
                 continue
             sc = max(1.0, tol.maxabs(want))
-            t = (2e-6 * model.n if in_band() else 1e-6) * sc + 1e-13 * float(np.max(np.abs(model.theta))) * sc
+            t = (1e-6 + max(extra_now(), baked[0]) * 10) * sc
             if J.shape != want.shape or tol.maxabs(J - want) > t:
                 ctx.violation(clause, clause + "/after=" + after, {"err": tol.maxabs(J - want) if J.shape == want.shape else None,
                                                                    "tol": t, "step": step}, hist)
@@ -271,16 +276,16 @@ def run_history(desc, base, ops, ctx, bm, construct="at_base"):
                     arg = th.copy()
                 else:
                     arg = None
-                if model.in_band():
-                    baked[0] = True
-                    ctx.cls("tool_defined_inside_cutoff_band")
+                if extra_now() > 0:
+                    baked[0] = max(baked[0], extra_now())
+                    ctx.cls("tool_defined_inside_cutoff_band" if model.in_band() else "tool_defined_at_huge_joint_values")
                 ee_now = model.pose()
                 new_home_global = ee_now @ se3.taa_to_T(op["rel"])
                 model.M = model.M @ se3.taa_to_T(op["rel"])
                 arm.setArbitraryHome(tm(new_home_global.copy()), arg)
             elif k == "restoreOriginalEE":
                 model.M = model.M0.copy()
-                baked[0] = False
+                baked[0] = 0.0
                 arm.restoreOriginalEE()
             elif k == "randomPos":
                 pyrandom.seed(op["seed"])
